@@ -25,10 +25,12 @@ Oracles (no model involved), stated on what the real code returns:
                (deep comparison before/after)                             (signature mutated:...)
   e2e          the same `latest` / `declared` statements on the rows written by the REAL engine run under
                harness/engine_driver.py for generated fork/join workflows, all schedules / id orders
-Findings on the unchanged tree (reported with the signatures F5:* and stale:shape-change, see the final
-report / known_findings.json): F5 = PublishSpec.merge discards a part when the receiving side has none;
-F7 = a variable re-published as a dict in one branch is replaced at the join by the scalar another branch
-inherited (dict-vs-scalar compares the version of the variable itself, which publishing a dict does not bump).
+Former findings, now FIXED in /repo and kept as regression cases that must be clean (CORPUS_PUBLISH, CORPUS_HISTORIES[0],
+CORPUS_MERGE[0:2], E2E_PUBLISH_CORPUS; Coq: C05_former_f5_witnesses_clean, C05_former_stale_witness_clean):
+  F5 (f28ee2d0)  PublishSpec.merge discarded a part when the receiving side had none (three shapes, signatures F5:*)
+                 and changed the dictionary the task specification was built from (signature mutated:spec:get_publish)
+  F7 (883c1b22)  a variable re-published as a dict in one branch was replaced at the join by the scalar another
+                 branch inherited (publishing a dict did not bump the variable's own path; signature stale:shape-change)
 
 Self-test. Mutations of the anchored source tried one at a time in a scratch worktree (VERIF_REPO=/tmp/wt ./check C05);
 every one yields VIOLATION lines; the NEW failing-input signature (beyond the findings F5/F7 present on the
@@ -43,9 +45,10 @@ unchanged tree) is given, `disagreement` = correspondence only (no property-leve
   M12 lang/v2/tasks.get_publish: on-complete publish ignored next to `publish`   declared-not-published:branch
   M13 data_flow.evaluate_upstream_context: first upstream row not merged         stale:same-shape
   M14 data_flow.evaluate_workflow_output: wf_ex.context before the final ctx     fallback:wrong-source:output
-The candidate fixes for F5 (PublishSpec.merge takes the other side's part when its own is None) and F7
-(_get_published_keys_recursively also versions dict-valued keys) make every oracle pass (failures=0) and leave
-only model disagreements, as expected of a faithful model of the unfixed code.
+Reverting either fix commit in a scratch worktree is detected:
+  R1  git revert f28ee2d0 (PublishSpec.merge)      F5:on-complete-global-dropped-by-task-publish, F5:branch-dropped-by-on-clause-without-branch,
+                                                   F5:global-dropped-by-on-clause-without-global, mutated:spec:get_publish (+ C05_source_facts, disagreements)
+  R2  git revert 883c1b22 (context_versioning)     stale:shape-change (component and e2e) (+ C05_source_facts, disagreements)
 """
 import copy
 import hashlib
@@ -60,14 +63,16 @@ GEN = ['CtxFacts']
 MANIFEST = {
     'level_text': 'Coq theorems over Model/Ctx.v and Model/Publish.v, all contexts / paths / versions / published dicts '
                   '(nested JSON values): outbound = published over inbound with every version bumped once per published '
-                  'leaf path; one-level and path-level characterisation of merge-by-version (newer wins, ties keep left, '
+                  'path (leaves and dict nodes); one-level and path-level characterisation of merge-by-version (newer wins, ties keep left, '
                   'absent keys added, versions = max); a leaf published in a branch survives a merge with any context '
-                  'whose version is not above the inbound one, both argument orders (nested under a shape condition, '
-                  'flat unconditionally; the unconditional nested statement is REFUTED with a witness = finding F7); '
+                  'that is not newer along the leaf position, both argument orders ('
+                  'flat and nested, any previous shape of the variable - unconditional since fix 883c1b22, former witness kept); '
                   'merge commutative/idempotent on conflict-free nested contexts, associative and the upstream fold '
-                  'invariant under every permutation of the rows (incl. the base row) on flat conflict-free contexts; '
+                  'invariant under every permutation of the rows (incl. the base row) on flat and on shape-compatible nested '
+                  'conflict-free contexts; '
                   'the row with the strictly highest version decides wherever it stands; ContextView priority per call '
-                  'site; get_publish priorities and the refuted completeness (finding F5). Model tied to the code by '
+                  'site; get_publish publishes exactly the declared variables (unconditional since fix f28ee2d0) and its priorities; '
+                  'source forms extracted by a translator on every run. Model tied to the code by '
                   'differential runs of the real functions (every permutation of <= 5 rows, real YAQL/Jinja).',
     'level_note': 'Trusted: YAQL/Jinja evaluators outside the generated expression forms, md5 of version keys treated as '
                   'injective, SQLAlchemy JSON column behaviour (fake rows are plain objects at component level; real rows '
@@ -950,6 +955,9 @@ def suite_get_publish(ctx):
             ctx.disagree('get_publish', {'case': c, 'yaml': text}, 'same answer on the second call', [impl, impl2])
         if freeze(ts.to_dict()) != before:
             spec_mut += 1
+            ctx.fail('mutated:spec:get_publish', 'get_publish(%s) changed the dictionary the task specification was built from' % state,
+                     {'kind': 'get_publish', 'task': t, 'yaml': text, 'state': state, 'spec_before': json.loads(before),
+                      'spec_after': json.loads(freeze(ts.to_dict()))})
         impls.append(impl)
         c['yaml'] = text
         tl, oc, oncl = model_args(t, state)
